@@ -1,0 +1,35 @@
+//go:build verif
+
+// Lifecycle accessors for the external verification harness (/verif, property C15).
+package kcp
+
+import "time"
+
+// VerifSchedTake removes and returns the tasks submitted to ts by Put that its first stage
+// has not consumed yet.  On a closed scheduler (its goroutines have exited, Put still
+// appends) this is every task submitted since the last call, which lets the harness own the
+// pending-callback queue: it sees each re-Put of a session's update and runs it by hand.
+func VerifSchedTake(ts *TimedSched) (fs []func(), at []time.Time) {
+	ts.prependLock.Lock()
+	defer ts.prependLock.Unlock()
+	for _, t := range ts.prependTasks {
+		fs = append(fs, t.execute)
+		at = append(at, t.ts)
+	}
+	clear(ts.prependTasks)
+	ts.prependTasks = ts.prependTasks[:0]
+	return
+}
+
+// VerifSessionBacklog is len(chPostProcessing) and whether die is closed.
+func VerifSessionBacklog(s *UDPSession) (queued int, dead bool) {
+	return len(s.chPostProcessing), s.isClosed()
+}
+
+// VerifListenerBacklog is the number of sessions created by the listener and not yet
+// returned by Accept, and the number of sessions in its map.
+func VerifListenerBacklog(l *Listener) (unaccepted, sessions int) {
+	l.sessionLock.RLock()
+	defer l.sessionLock.RUnlock()
+	return len(l.chAccepts), len(l.sessions)
+}
